@@ -25,7 +25,7 @@ CATS = ["active-task", "active-task-after", "scheduler-residue", "scheduler-str"
         "canary-differs", "canary-stale-batch-flushed", "hang", "worker-died"]
 GUARD_CATS = [c for c in CATS if c != "active-task"]
 LADDER = {"quick": [(4, 0, ["call"]), (3, 1, ["call", "av"]), (2, 2, ["call"])],
-          "thorough": [(5, 0, ["call"]), (4, 1, ["call", "av"]), (3, 2, ["call"]), (2, 3, ["call"])]}
+          "thorough": [(5, 0, ["call"]), (4, 1, ["call"]), (3, 1, ["av"]), (3, 2, ["call"])]}
 GUARD_SIZES = {"quick": (2, 3, 4), "thorough": (2, 3, 4, 5, 6)}
 
 IA, IB = gen.IA, gen.IB
